@@ -5,7 +5,7 @@ occupant table, which the surplus table) from the code of the concrete CellOccup
 import ast
 from typing import Dict, List, Optional, Set, Tuple
 
-from .core import AnalysisError, Loc, Report, norm
+from .core import tolerant, IdiomNotRecognised, AnalysisError, Loc, Report, norm
 from .inifront import IniConfig, Obj
 from .config_graph import ConfigGraph
 from .guards import atoms, path_conditions
@@ -37,7 +37,7 @@ class OccupancyRoles:
             if len(attrs) == 1:
                 self.sur = attrs.pop()
         if not (self.occ and self.sur):
-            raise AnalysisError("occupant / surplus tables of the cell occupancy not identified by role")
+            raise IdiomNotRecognised("occupant / surplus tables of the cell occupancy not identified by role")
         ya = self.cls.methods.get("yield_active_cells")
         self.active_cell = self.active_id = None
         if ya is not None:
@@ -45,7 +45,7 @@ class OccupancyRoles:
                 if isinstance(n, ast.Yield) and isinstance(n.value, ast.Tuple) and len(n.value.elts) == 2:
                     self.active_cell, self.active_id = self_attr(n.value.elts[0]), self_attr(n.value.elts[1])
         if not (self.active_cell and self.active_id):
-            raise AnalysisError("active cell / active identifier attributes not identified by role")
+            raise IdiomNotRecognised("active cell / active identifier attributes not identified by role")
         # relevance predicate: the attribute that the constructor binds to a lambda
         self.relevant = None
         init = self.cls.methods.get("__init__")
@@ -98,6 +98,7 @@ def _cap_table(test: ast.AST, roles: OccupancyRoles, cell: str) -> Optional[Tupl
     return None if any(r is None for r in rows) else tuple(rows)  # type: ignore
 
 
+@tolerant("R11.1-occupancy-roles")
 def check_occupancy(prog: Program, rep: Report) -> None:
     roles = OccupancyRoles(prog)
     cls = roles.cls
@@ -568,23 +569,50 @@ def check_landing_table(prog: Program, rep: Report) -> None:
         rep.ob("R11.4-landing-direction", dirarg == idx, Loc(file, a.lineno, f"{h.name}.send_event_time"), a,
                "the neighbour cell and the boundary coordinate must be taken in the same direction")
     # the selected boundary and direction are stored together under the 'smaller time' guard
-    sel = [n for n in ast.walk(fn) if isinstance(n, ast.If) and isinstance(n.test, ast.Compare) and len(n.test.ops) == 1
-           and any(isinstance(a, ast.Assign) and self_attr(a.targets[0]) == "_boundary" for a in n.body)]
+    # roles, not names: the direction attribute receives the loop variable that enumerates the directions, the boundary attribute the
+    # face coordinate taken from the neighbour cell (the value whose landing table was checked above)
+    loopvars = [norm(l.target.elts[0]) for l in ast.walk(fn) if isinstance(l, ast.For) and isinstance(l.target, ast.Tuple)]
+    face_values = {norm(a.targets[0]) for _, _, _, _, _, a in rows if isinstance(a, ast.Assign)} | {norm(a.value) for _, _, _, _, _, a in rows if isinstance(a, ast.Assign)}
+    RS = Resolver(fn)
+    # plain copies of a face value (also through a tuple assignment) are the face value
+    for _ in range(4):
+        for a in ast.walk(fn):
+            if isinstance(a, ast.Assign) and len(a.targets) == 1:
+                t, v = a.targets[0], a.value
+                pairs = [(t, v)] if isinstance(t, ast.Name) else \
+                    list(zip(t.elts, v.elts)) if isinstance(t, (ast.Tuple, ast.List)) and isinstance(v, (ast.Tuple, ast.List)) and len(t.elts) == len(v.elts) else []
+                for t_, v_ in pairs:
+                    if isinstance(t_, ast.Name) and isinstance(v_, ast.Name) and v_.id in face_values:
+                        face_values.add(t_.id)
+
+    def stores_of(block):
+        return {self_attr(a.targets[0]): a.value for a in block if isinstance(a, ast.Assign) and self_attr(a.targets[0])}
+    sel = []
+    for n in ast.walk(fn):
+        if isinstance(n, ast.If) and isinstance(n.test, ast.Compare) and len(n.test.ops) == 1:
+            st_ = stores_of(n.body)
+            if any(norm(v) in loopvars for v in st_.values()) and len(st_) >= 2:
+                sel.append(n)
     ok = False
+    dir_attr = bnd_attr = None
     if len(sel) == 1:
-        names = {self_attr(a.targets[0]): norm(a.value) for a in sel[0].body if isinstance(a, ast.Assign) and self_attr(a.targets[0])}
-        loopvars = [norm(l.target.elts[0]) for l in ast.walk(fn) if isinstance(l, ast.For) and isinstance(l.target, ast.Tuple)]
+        st_ = stores_of(sel[0].body)
+        d_ = [a_ for a_, v in st_.items() if norm(v) in loopvars]
+        b_ = [a_ for a_, v in st_.items() if a_ not in d_ and (norm(v) in face_values or ".cell_min[" in RS.text(v) or ".cell_max[" in RS.text(v))]
+        if len(d_) == 1 and len(b_) == 1:
+            dir_attr, bnd_attr = d_[0], b_[0]
         at = atoms(sel[0].test)
         sp = split_atom(at[0]) if len(at) == 1 else None
         # `candidate < current minimum` (however oriented): the minimum is updated with the candidate in the same block
-        ok = sp is not None and sp[1] == "<" and "_boundary" in names and "_direction" in names and names["_direction"] in loopvars \
+        ok = sp is not None and sp[1] == "<" and dir_attr is not None \
             and any(isinstance(a, ast.Assign) and norm(a.targets[0]) == sp[2] and norm(a.value) == sp[0] for a in sel[0].body)
     rep.ob("R11.4-select-earliest", ok, Loc(file, sel[0].lineno if sel else fn.lineno, f"{h.name}.send_event_time"),
            sel[0].test if sel else "selection", "boundary and direction of the earliest crossing must be stored together")
     RO = Resolver(out)
     snaps = [a for a in ast.walk(out) if isinstance(a, ast.Assign) and isinstance(a.targets[0], ast.Subscript)
              and RO.text(a.targets[0].value).endswith(".position")]
-    oks = len(snaps) == 1 and self_attr(snaps[0].targets[0].slice) == "_direction" and self_attr(snaps[0].value) == "_boundary"
+    oks = len(snaps) == 1 and dir_attr is not None and self_attr(RO.res(snaps[0].targets[0].slice)) == dir_attr \
+        and self_attr(RO.res(snaps[0].value)) == bnd_attr
     rep.ob("R11.4-snap-writes-selected-boundary", oks, Loc(file, out.lineno, f"{h.name}.send_out_state"), snaps[0] if snaps else "snap",
            "the out-state must put exactly the selected coordinate exactly on the selected boundary")
 
@@ -829,8 +857,21 @@ def check_active_cell_level(prog: Program, rep: Report, rule: str) -> None:
     loc = Loc(cvc.file, cv.lineno, "CellVetoEventHandler.send_event_time")
     if not calls:
         rep.ob(rule, False, loc, "position_to_cell", "the active cell is not computed from a position")
+    # a value computed by a method of the handler that itself reads the cell level depends on it
+    methods_all = prog.all_methods(cvc)
+    reads_level: Set[str] = set()
+    for _ in range(3):
+        for name, (_, m) in methods_all.items():
+            if name not in reads_level and any(self_attr(x) in level_attrs or (isinstance(x, ast.Call) and isinstance(x.func, ast.Attribute)
+                                                                                and isinstance(x.func.value, ast.Name) and x.func.value.id == "self"
+                                                                                and x.func.attr in reads_level) for x in ast.walk(m)):
+                reads_level.add(name)
+
+    def is_source(x: ast.AST) -> bool:
+        return self_attr(x) in level_attrs or (isinstance(x, ast.Call) and isinstance(x.func, ast.Attribute) and isinstance(x.func.value, ast.Name)
+                                               and x.func.value.id == "self" and x.func.attr in reads_level and x.func.attr != "send_event_time")
     for c in calls:
-        ok = depends_on(cv, c.args[0], lambda x: self_attr(x) in level_attrs)
+        ok = depends_on(cv, c.args[0], is_source)
         rep.ob(rule, ok, Loc(cvc.file, c.lineno, loc.qual), c,
                f"the position whose cell is the origin of the sampled offset does not depend on the cell level (self.{sorted(level_attrs)[0]}): "
                "for a composite-object cell system the leaf unit's position is not the position the cell occupancy is kept for")
